@@ -104,10 +104,13 @@ impl Number {
 
     /// Raises a value to a dimensionless integer power.
     pub fn powi(&self, exp: i32) -> Number {
+        // A zero exponent must drop the base unit entirely, otherwise
+        // `m^0` is not dimensionless and `m^0 + 1` is refused.
         let unit = self
             .unit
             .iter()
             .map(|(k, &power)| (k.clone(), power * exp as i64))
+            .filter(|&(_, power)| power != 0)
             .collect::<Dimensionality>();
         Number {
             value: self.value.pow(exp),
